@@ -5,6 +5,8 @@ import (
 	"unicode"
 	"unicode/utf8"
 
+	"github.com/shopspring/decimal"
+
 	"go.lsp.dev/protocol"
 
 	"github.com/juev/hledger-lsp/internal/ast"
@@ -417,15 +419,26 @@ func formatAmountQuantity(amount *ast.Amount, commodityFormats map[string]Number
 	if commodityFormats != nil {
 		// First try specific commodity format
 		if format, ok := commodityFormats[amount.Commodity.Symbol]; ok {
-			return FormatNumber(amount.Quantity, format)
+			return formatWithoutLoss(amount.Quantity, format)
 		}
 		// Then try default format (stored under empty key)
 		if format, ok := commodityFormats[""]; ok {
-			return FormatNumber(amount.Quantity, format)
+			return formatWithoutLoss(amount.Quantity, format)
 		}
 	}
 	if amount.RawQuantity != "" {
 		return amount.RawQuantity
 	}
 	return amount.Quantity.String()
+}
+
+// formatWithoutLoss applies a display format to a quantity written in a journal. The
+// format decides the marks and the least number of decimals; it never rounds away
+// decimals the quantity carries, which would change what the journal says.
+func formatWithoutLoss(qty decimal.Decimal, format NumberFormat) string {
+	if places := int(-qty.Exponent()); places > 0 && (!format.HasDecimal || places > format.DecimalPlaces) {
+		format.HasDecimal = true
+		format.DecimalPlaces = places
+	}
+	return FormatNumber(qty, format)
 }
